@@ -223,6 +223,9 @@ func (r *rig) sendPieces(req *client.Request, p *probe) (*client.Response, error
 				cl2.SetCookiesWithStruct(fl)
 				req.SetCookiesWithStruct(real)
 			}
+			if p.hdrs != nil && p.hdrs.level == "client" {
+				p.hdrs.apply(func(k, v string) { cl2.SetHeader(k, v) })
+			}
 			req.SetClient(cl2)
 		case sendAdders:
 			for _, c := range s.sched {
@@ -273,7 +276,7 @@ func (r *rig) sendPieces(req *client.Request, p *probe) (*client.Response, error
 	switch p.src {
 	case sQuery, sHeader, sCookie:
 		fill()
-		return req.Get(rigURL)
+		return r.fire(req, p, "Get")
 	case sMultipart:
 		if s.fileFirst {
 			r.attachFiles(req, s)
@@ -285,7 +288,7 @@ func (r *rig) sendPieces(req *client.Request, p *probe) (*client.Response, error
 	default:
 		fill()
 	}
-	return req.Post(rigURL)
+	return r.fire(req, p, "Post")
 }
 
 // sendCorpus: the smallest interleaved witnesses, one per source and file API; and the struct
